@@ -211,6 +211,18 @@ def check_value(key, other_key):
             fails.append(('compiled-object-aliases-callers-dict', f'{ctx}: mutating the dict passed as namespaces/custom after compile changed the compiled selector'))
     except Exception as e:  # noqa: BLE001
         fails.append(('compiled-object-aliases-callers-dict', f'{ctx}: {e!r:.150}'))
+    # ... and compiling again with the very same dict objects (now holding other content) must see the new content
+    try:
+        again = do_compile((pat, ns_arg, cu_arg if cu_arg is None or key_valid(pat, cu_arg) else None, flags)) \
+            if (cu_arg is None or key_valid(pat, cu_arg)) else None
+        if again is not None:
+            want = do_compile((pat, dict(ns_arg) if ns_arg is not None else None,
+                               dict(cu_arg) if cu_arg is not None else None, flags))
+            if again != want or hash(again) != hash(want) or (ns_arg is not None and dict(again.namespaces) != ns_arg):
+                fails.append(('compile-reuses-stale-wrapper-of-mutated-dict',
+                              f'{ctx}: compile() with a dict object that was changed in place since the previous call'))
+    except sv.SelectorSyntaxError:
+        pass
     sv.purge()
     # copies
     doc = witness()
